@@ -50,6 +50,135 @@ def directives(root):
     return sorted(res, key=lambda r: (r["dir"], r["file"], r["line"]))
 
 
+SHRINK_SRC = '''package verifshrink
+
+import "github.com/csgura/fp/genfp"
+
+//go:generate go run github.com/csgura/fp/internal/generator/template_gen
+
+// @internal.Generate
+var _ = genfp.GenerateFromUntil{
+	File:  "a_gen.go",
+	From:  1,
+	Until: 3,
+	Template: `
+func A{{.N}}() int { return {{.N}} }
+`,
+}
+
+// @internal.Generate
+var _ = genfp.GenerateFromUntil{
+	File:  "b_gen.go",
+	From:  2,
+	Until: %d,
+	Template: `
+func B{{.N}}() int { return {{.N}} }
+`,
+}
+'''
+
+REPEAT_SRC = '''package verifrepeat
+
+import (
+	rf "reflect"
+
+	"github.com/csgura/fp"
+	"github.com/csgura/fp/test/internal/verifrepeat/as"
+	"github.com/csgura/fp/test/internal/verifrepeat/option"
+)
+
+//go:generate go run github.com/csgura/fp/cmd/gombok
+
+// field types that mention a user package named like one the generated file imports itself TOGETHER WITH a package the
+// source imports under an alias: which names end up in the generated file must not depend on map iteration order
+
+// First makes the generated file import fp's own packages (as, option) before the structs below are rendered
+//
+// @fp.Value
+type First struct {
+	n int
+	o fp.Option[int]
+}
+
+// @fp.Value
+// @fp.Json
+// @fp.GenLabelled
+type Mixed struct {
+	kinds  map[as.Code]rf.Kind
+	opts   map[option.Kind]rf.Kind
+	o      fp.Option[rf.Kind]
+	plain  int
+	marks  []as.Code
+	both   fp.Tuple2[as.Code, rf.Kind]
+}
+
+// @fp.Value
+type Second struct {
+	k rf.Kind
+	c as.Code
+}
+'''
+
+
+def scratch_scenarios(c, root, bins, env):
+    """two scenarios inside the scratch copy of the repository (the generators are internal packages of the module)"""
+    events = []
+    tg = next((b for t, b in bins.items() if t.endswith("template_gen")), None)
+    gb = next((b for t, b in bins.items() if t.endswith("cmd/gombok")), None)
+
+    def listing(d, suffix):
+        return sorted([f, hashlib.sha256(open(os.path.join(d, f), "rb").read()).hexdigest()[:16]] for f in os.listdir(d) if f.endswith(suffix))
+
+    if tg:
+        d = os.path.join(root, "test", "internal", "verifshrink")
+        os.makedirs(d)
+
+        def gen(until):
+            with open(os.path.join(d, "types.go"), "w") as fh:
+                fh.write(SHRINK_SRC % until)
+            r = subprocess.run([tg], cwd=d, env=dict(env, GOPACKAGE="verifshrink", GOFILE="types.go", GOLINE="5"), capture_output=True, text=True, timeout=300)
+            if r.returncode != 0:
+                raise vf.Infra("template_gen failed on the scratch package: " + (r.stderr or r.stdout)[-300:])
+        gen(4)
+        if len(listing(d, "_gen.go")) != 2:
+            raise vf.Infra("scratch shrink scenario: step 1 did not generate two files")
+        gen(2)                      # the range of b_gen.go is empty now
+        ontop = listing(d, "_gen.go")
+        for f, _ in ontop:
+            os.remove(os.path.join(d, f))
+        gen(2)
+        clean = listing(d, "_gen.go")
+        events.append(dict(e="Shrink", tr=0, ontop=ontop, clean=clean))
+        shutil.rmtree(d, ignore_errors=True)
+    if gb:
+        d = os.path.join(root, "test", "internal", "verifrepeat")
+        for sub, body in (("as", "type Code int\n"), ("option", "type Kind int\n")):
+            os.makedirs(os.path.join(d, sub))
+            with open(os.path.join(d, sub, sub + ".go"), "w") as fh:
+                fh.write("package %s\n\n%s" % (sub, body))
+        with open(os.path.join(d, "types.go"), "w") as fh:
+            fh.write(REPEAT_SRC)
+        digs, ok, msg = [], True, ""
+        for k in range(10 if c.thorough else 6):
+            for f in os.listdir(d):
+                if f.endswith("_generated.go"):
+                    os.remove(os.path.join(d, f))
+            r = subprocess.run([gb], cwd=d, env=dict(env, GOPACKAGE="verifrepeat", GOFILE="types.go", GOLINE="11", GOMAXPROCS=str([1, 16, 3, 7][k % 4])),
+                               capture_output=True, text=True, timeout=300)
+            if r.returncode != 0:
+                ok, msg = False, (r.stderr or r.stdout)[-300:]
+                break
+            digs.append(json.dumps(listing(d, "_generated.go")))
+        b = subprocess.run(["go", "build", "./test/internal/verifrepeat/"], cwd=root, env=env, capture_output=True, text=True)
+        if ok and b.returncode != 0:
+            ok, msg = False, "generated package does not compile: " + b.stderr[-300:]
+        short = [hashlib.sha256(x.encode()).hexdigest()[:8] for x in digs]
+        events.append(dict(e="Repeat", tr=0, ok=ok, digests=short or ["none"], msg=msg))
+        shutil.rmtree(d, ignore_errors=True)
+    c.extra["scratch_scenarios"] = [e["e"] for e in events]
+    return events
+
+
 def run(c):
     env = dict(os.environ, **vf.GOENV)
     scratch = tempfile.mkdtemp(prefix="verif-c13-repo-")
@@ -95,6 +224,7 @@ def run(c):
                 names = sorted({p for p, _ in diff})
                 c.extra["first_difference"] = names[:10] + failed[:3]
         events.append(dict(e="End", tr=0))
+        events += scratch_scenarios(c, root, bins, env)
         tracef = os.path.join(c.tmp, "genfix.ndjson")
         with open(tracef, "w") as fh:
             for e in events:
@@ -109,7 +239,12 @@ def run(c):
         cov["samples"] = [dict(directive="%s:%d go run %s" % (os.path.relpath(os.path.join(d["dir"], d["file"]), root), d["line"], d["tool"])) for d in ds[:3]]
         if rejected:
             ev = rejected[0]["line"]
-            if ev["e"] == "Pass":
+            if ev["e"] in ("Shrink", "Repeat"):
+                sig = "scratch-" + ev["e"].lower()
+                what = ("a directive whose output became empty leaves its old file behind: regenerated on top %s, from a clean directory %s" % (ev["ontop"], ev["clean"])
+                        if ev["e"] == "Shrink" else
+                        "gombok wrote different bytes for the same scratch package in %d runs: digests %s %s" % (len(ev["digests"]), ev["digests"], ev.get("msg", "")))
+            elif ev["e"] == "Pass":
                 changed = sorted({p for p, _ in set(before.items()) ^ set(map(tuple, ev["files"]))})
                 sig = "pass-not-a-fixpoint:" + ",".join(changed[:4]) + ("|failed:" + ";".join(x.split(" ")[0] for x in ev["failed"][:3]) if ev["failed"] else "")
                 what = "generator pass %d (GOMAXPROCS=%s, %s) is not a fixpoint: changed/created/deleted %s; failed directives %s" % (
